@@ -40,6 +40,20 @@
 //     surviving current key it returned before) and must only return keys of that slot.
 //   - differential: the same histories run on v1 and v2, memory and directory variants, must
 //     give the same stored keys and the same answers wherever the oracle is deterministic.
+//
+// Storage capabilities (v1): the key store is written against the filesystem.Storage interface
+// and is specified to work on storages without hard links too (backupHistoricalKeyFile: Link,
+// else Copy; Acra's own Redis storage refuses Link). The same histories with the same oracle
+// therefore also run on storages whose Link is refused on every call - kslab.Config.Link in
+// {eperm, enotsup, exdev, plain (error without errno)} - over the in-memory storage and over the
+// real filesystem.FileStorage in a real directory, cache off / 1 / unbounded, so that every
+// rotated key reaches its history file through Storage.Copy. What a real FileStorage creates
+// depends on the process umask, a process-wide setting: the check sets it explicitly (022, the
+// usual one) instead of inheriting it, and the thorough tier repeats the real-directory
+// configurations under umask 000 and 077 (one after the other, the umask is restored afterwards).
+// Findings on a link-refusing storage carry the format class "v1+nolink" (a defect of the
+// format itself is then reported under "v1" and under "v1+nolink"). The oracle is unchanged: it
+// looks at what the key store offers and at the stored keys, never at file modes.
 package main
 
 import (
@@ -48,8 +62,10 @@ import (
 	"os"
 	"runtime/pprof"
 	"sort"
+	"strconv"
 	"strings"
 	"sync"
+	"syscall"
 	"time"
 
 	"github.com/cossacklabs/acra/keystore"
@@ -64,7 +80,8 @@ type replayT struct {
 	Config  kslab.Config `json:"config"`
 	Slots   []kslab.Slot `json:"slots"`
 	History []kslab.Op   `json:"history"`
-	Op      *kslab.Op    `json:"op,omitempty"` // judged operation; absent: state observation after History
+	Op      *kslab.Op    `json:"op,omitempty"`    // judged operation; absent: state observation after History
+	Umask   string       `json:"umask,omitempty"` // process umask (octal) the element ran under; absent: defaultUmask
 	Pre     string       `json:"pre_state,omitempty"`
 	Seen    string       `json:"observed,omitempty"`
 }
@@ -82,6 +99,9 @@ type checker struct {
 
 func fmtKey(cfg kslab.Config, cacheSpecific bool) string {
 	k := cfg.Format
+	if cfg.LinkRefused() {
+		k += "+nolink"
+	}
 	if cacheSpecific {
 		k += "+cache"
 		if cfg.ForeignWrites {
@@ -652,6 +672,15 @@ type space struct {
 	cfg   kslab.Config
 	slots []kslab.Slot
 	depth int
+	umask string // octal process umask for this space; "" = defaultUmask
+}
+
+// cfgName names configuration and umask, e.g. "v1-dir-nocache-nolink-eperm-umask000".
+func (s space) cfgName() string {
+	if s.umask != "" {
+		return s.cfg.Name() + "-umask" + s.umask
+	}
+	return s.cfg.Name()
 }
 
 func (s space) name() string {
@@ -659,7 +688,24 @@ func (s space) name() string {
 	for _, sl := range s.slots {
 		n = append(n, sl.String())
 	}
-	return s.cfg.Name() + "[" + strings.Join(n, ",") + "]"
+	return s.cfgName() + "[" + strings.Join(n, ",") + "]"
+}
+
+// defaultUmask is the process umask of the whole run (set explicitly in main, never inherited).
+const defaultUmask = "022"
+
+// setUmask sets the process umask (process-wide: callers run one umask at a time) and returns
+// the function that restores the previous one.
+func setUmask(octal string) func() {
+	if octal == "" {
+		octal = defaultUmask
+	}
+	m, err := strconv.ParseUint(octal, 8, 9)
+	if err != nil {
+		ev.Fatalf("umask %q: %v", octal, err)
+	}
+	old := syscall.Umask(int(m))
+	return func() { syscall.Umask(old) }
 }
 
 var stopProfile = func() {}
@@ -681,6 +727,7 @@ func (c *checker) classes(cl []string) {
 
 func explore(r *ev.Run, sp space, histories *[][]kslab.Op) kslab.Stats {
 	c := &checker{r: r, cfg: sp.cfg, slots: sp.slots}
+	defer setUmask(sp.umask)()
 	t0 := time.Now()
 	var hmu sync.Mutex
 	ex := kslab.Explorer[kslab.Op, kslab.Result]{
@@ -699,7 +746,7 @@ func explore(r *ev.Run, sp space, histories *[][]kslab.Op) kslab.Stats {
 			c.classes(cl)
 			if len(fs) > 0 {
 				op := t.Op
-				c.report(fs, replayT{Config: sp.cfg, Slots: sp.slots, History: t.History, Op: &op, Pre: t.Pre, Seen: t.Post})
+				c.report(fs, replayT{Config: sp.cfg, Slots: sp.slots, History: t.History, Op: &op, Pre: t.Pre, Seen: t.Post, Umask: sp.umask})
 			}
 			if t.Op.Code == kslab.OpResetCache || t.Op.Code == kslab.OpReopen {
 				// "shows the same as soon as the cache is reset": observe right away, also at the depth bound
@@ -709,15 +756,15 @@ func explore(r *ev.Run, sp space, histories *[][]kslab.Op) kslab.Stats {
 				c.classes(cl2)
 				if len(fs) > 0 {
 					h := append(append([]kslab.Op(nil), t.History...), t.Op)
-					c.report(fs, replayT{Config: sp.cfg, Slots: sp.slots, History: h, Pre: t.Post})
+					c.report(fs, replayT{Config: sp.cfg, Slots: sp.slots, History: h, Pre: t.Post, Umask: sp.umask})
 				}
 			}
 		},
 		OnState: func(s sysT, h []kslab.Op, canon string) {
 			lab := s.(*kslab.Lab)
-			r.Distinct(sp.cfg.Name() + "|" + canon)
+			r.Distinct(sp.cfgName() + "|" + canon)
 			if len(h) > 0 && (len(h) == sp.depth || len(h)%2 == 0) {
-				r.Sample(map[string]interface{}{"config": sp.cfg.Name(), "history": kslab.HistoryString(h), "state": canon})
+				r.Sample(map[string]interface{}{"config": sp.cfgName(), "history": kslab.HistoryString(h), "state": canon})
 			}
 			if histories != nil {
 				hmu.Lock()
@@ -729,7 +776,7 @@ func explore(r *ev.Run, sp space, histories *[][]kslab.Op) kslab.Stats {
 			r.Eval(n)
 			c.classes(cl)
 			if len(fs) > 0 {
-				c.report(fs, replayT{Config: sp.cfg, Slots: sp.slots, History: h, Pre: canon})
+				c.report(fs, replayT{Config: sp.cfg, Slots: sp.slots, History: h, Pre: canon, Umask: sp.umask})
 			}
 		},
 		MaxDepth: sp.depth,
@@ -878,13 +925,14 @@ func replay(r *ev.Run) {
 	var c replayT
 	r.LoadReplay(&c)
 	kslab.SetRandMode(kslab.RandPerStore) // one lab: its own deterministic stream
+	defer setUmask(c.Umask)()
 	lab, err := kslab.NewLab(c.Config, c.Slots)
 	if err != nil {
 		ev.Fatalf("replay: %v", err)
 	}
 	defer lab.Close()
 	ck := &checker{r: r, cfg: c.Config, slots: c.Slots}
-	fmt.Printf("replay on %s, slots %v\n", c.Config.Name(), c.Slots)
+	fmt.Printf("replay on %s (umask %s), slots %v\n", c.Config.Name(), map[bool]string{true: defaultUmask, false: c.Umask}[c.Umask == ""], c.Slots)
 	fmt.Printf("  initial: %s\n", lab.Canon())
 	ops := append([]kslab.Op(nil), c.History...)
 	if c.Op != nil {
@@ -934,6 +982,8 @@ func main() {
 		}
 	}
 	kslab.InstallRand()
+	// what a real FileStorage creates depends on the process umask: never inherit it
+	setUmask(defaultUmask)
 	if *cpuProf != "" {
 		f, err := os.Create(*cpuProf)
 		if err != nil {
@@ -968,10 +1018,10 @@ func main() {
 
 	perConfig := map[string]map[string]int{}
 	note := func(sp space, st kslab.Stats) {
-		m := perConfig[sp.cfg.Name()]
+		m := perConfig[sp.cfgName()]
 		if m == nil {
 			m = map[string]int{}
-			perConfig[sp.cfg.Name()] = m
+			perConfig[sp.cfgName()] = m
 		}
 		m["states"] += st.States
 		m["transitions"] += st.Transitions
@@ -992,20 +1042,80 @@ func main() {
 	// the same store opened with the key directory written with a trailing separator: cache keys
 	// and file paths are then derived from a non-canonical spelling
 	spelledCfg := kslab.Config{Format: "v1", Storage: "mem", Cache: keystore.InfiniteCacheSize, DirSpelling: "slash"}
-	diffCfgs := []kslab.Config{kslab.StandardConfigs[0], kslab.StandardConfigs[3], kslab.StandardConfigs[4], kslab.StandardConfigs[5]}
+	// v1 on storages that refuse hard links (every rotated key reaches its history file through
+	// Storage.Copy): quick: eperm on {mem cache off, mem cache unbounded, real directory cache off} at the
+	// full depth and the other ways of refusing on the real directory at depth 3 (the way of refusing
+	// can only matter to the rotation step itself); thorough: the whole product refusal x storage
+	// x cache {off, 1, unbounded} at the quick depth, eperm on {mem, dir} cache-less and dir
+	// unbounded at the full depth, and the real-directory configurations (links supported and
+	// refused) under umask 000 and 077.
+	type tier1 struct {
+		cfg   kslab.Config
+		depth int
+		umask string
+	}
+	var plan1 []tier1
+	for _, cfg := range append(append([]kslab.Config{}, kslab.StandardConfigs...), spelledCfg) {
+		plan1 = append(plan1, tier1{cfg, depth1, ""})
+	}
+	noLink := func(storage string, cache int, how string) kslab.Config {
+		return kslab.Config{Format: "v1", Storage: storage, Cache: cache, Link: how}
+	}
+	const refusalDepth = 3
+	depthOr := func(d int) int {
+		if *depthFlag > 0 {
+			return *depthFlag
+		}
+		return d
+	}
+	var noLinkSpaces []map[string]interface{}
+	if !r.Thorough() {
+		for _, c := range []kslab.Config{noLink("mem", keystore.WithoutCache, "eperm"), noLink("mem", keystore.InfiniteCacheSize, "eperm"), noLink("dir", keystore.WithoutCache, "eperm")} {
+			plan1 = append(plan1, tier1{c, depth1, ""})
+		}
+		for _, how := range kslab.LinkRefusals[1:] {
+			plan1 = append(plan1, tier1{noLink("dir", keystore.WithoutCache, how), depthOr(refusalDepth), ""})
+		}
+	} else {
+		for _, c := range []kslab.Config{noLink("mem", keystore.WithoutCache, "eperm"), noLink("dir", keystore.WithoutCache, "eperm"), noLink("dir", keystore.InfiniteCacheSize, "eperm")} {
+			plan1 = append(plan1, tier1{c, depth1, ""})
+		}
+		for _, how := range kslab.LinkRefusals {
+			for _, storage := range []string{"mem", "dir"} {
+				for _, cache := range []int{keystore.WithoutCache, 1, keystore.InfiniteCacheSize} {
+					c := noLink(storage, cache, how)
+					if how == "eperm" && (cache == keystore.WithoutCache || storage == "dir" && cache == keystore.InfiniteCacheSize) {
+						continue // already explored at the full depth
+					}
+					plan1 = append(plan1, tier1{c, depthOr(5), ""})
+				}
+			}
+		}
+		for _, um := range []string{"000", "077"} {
+			plan1 = append(plan1, tier1{kslab.StandardConfigs[3], depthOr(5), um}, tier1{noLink("dir", keystore.WithoutCache, "eperm"), depthOr(5), um}, tier1{noLink("dir", keystore.InfiniteCacheSize, "eperm"), depthOr(5), um})
+		}
+	}
+	for _, p := range plan1 {
+		if p.cfg.LinkRefused() || p.umask != "" {
+			noLinkSpaces = append(noLinkSpaces, map[string]interface{}{"config": space{cfg: p.cfg, umask: p.umask}.cfgName(), "depth": p.depth})
+		}
+	}
+	diffCfgs := []kslab.Config{kslab.StandardConfigs[0], kslab.StandardConfigs[3], kslab.StandardConfigs[4], kslab.StandardConfigs[5],
+		noLink("mem", keystore.WithoutCache, "eperm"), noLink("dir", keystore.WithoutCache, "eperm")}
 	diffCompared, diffAgree, diffExplained := 0, 0, 0
 	for _, k := range kslab.AllKinds {
 		slots := []kslab.Slot{kslab.SlotOf(k, kslab.Alpha)}
 		var hists [][]kslab.Op
-		for _, cfg := range append(append([]kslab.Config{}, kslab.StandardConfigs...), spelledCfg) {
+		for _, p := range plan1 {
+			cfg := p.cfg
 			if !use(cfg) || r.Expired() {
 				continue
 			}
 			var hp *[][]kslab.Op
-			if !cfg.Cached() && cfg.Storage == "mem" {
+			if !cfg.Cached() && cfg.Storage == "mem" && !cfg.LinkRefused() {
 				hp = &hists
 			}
-			sp := space{cfg, slots, depth1}
+			sp := space{cfg, slots, p.depth, p.umask}
 			note(sp, explore(r, sp, hp))
 		}
 		if len(want) == 0 && !r.Expired() {
@@ -1014,6 +1124,7 @@ func main() {
 		}
 	}
 	bounds := map[string]interface{}{"single_kind": map[string]interface{}{"kinds": len(kslab.AllKinds), "clients": 1, "depth": depth1, "configs": len(kslab.StandardConfigs)}}
+	bounds["single_kind_link_refusing_storage_and_umask"] = noLinkSpaces
 
 	if r.Thorough() {
 		// tier 2: two kinds x two clients interleaved
@@ -1022,11 +1133,12 @@ func main() {
 			{Format: "v2", Storage: "mem"},
 			{Format: "v1", Storage: "mem", Cache: 1},
 			{Format: "v1", Storage: "mem", Cache: keystore.InfiniteCacheSize},
+			noLink("mem", keystore.InfiniteCacheSize, "plain"),
 		}
 		if *foreign {
 			memCfgs = append(memCfgs, kslab.Config{Format: "v1", Storage: "mem", Cache: keystore.InfiniteCacheSize, ForeignWrites: true})
 		}
-		dirCfgs := []kslab.Config{{Format: "v1", Storage: "dir", Cache: keystore.WithoutCache}, {Format: "v2", Storage: "dir"}}
+		dirCfgs := []kslab.Config{{Format: "v1", Storage: "dir", Cache: keystore.WithoutCache}, {Format: "v2", Storage: "dir"}, noLink("dir", keystore.WithoutCache, "eperm")}
 		pairs := [][2]kslab.Kind{{kslab.StoragePair, kslab.StorageSym}, {kslab.PoisonPair, kslab.PoisonSym}, {kslab.StorageSym, kslab.SearchHMAC}, {kslab.StoragePair, kslab.PoisonSym}, {kslab.SearchHMAC, kslab.AuditLog}}
 		clients := []string{kslab.Alpha, kslab.Bravo}
 		type plan struct {
@@ -1049,7 +1161,7 @@ func main() {
 						r.Capped(fmt.Sprintf("wall budget: %s %v depth %d not started", cfg.Name(), kp, pl.depth))
 						continue
 					}
-					sp := space{cfg, slots, pl.depth}
+					sp := space{cfg: cfg, slots: slots, depth: pl.depth}
 					st := explore(r, sp, nil)
 					note(sp, st)
 					t2 = append(t2, map[string]interface{}{"space": sp.name(), "depth": pl.depth, "completed_depth": st.MaxDepth, "states": st.States, "transitions": st.Transitions})
@@ -1063,12 +1175,17 @@ func main() {
 	r.Set("bounds", bounds)
 	r.Set("per_config", perConfig)
 	r.Set("differential", map[string]int{"step_comparisons": diffCompared, "agree": diffAgree, "differ_where_model_oracle_reports": diffExplained})
+	r.Set("process_umask", defaultUmask)
+	r.Set("link_refusals", kslab.LinkRefusals)
 	r.Set("alphabet", []string{"gen", "cur", "all", "list", "listrot", "dcur", "drot(i) for every listed i and i in {-1,0,1,max+1}", "reset", "reopen"})
 	r.Rule("state = canonical key store state read below the API: per (kind, client) the generated count, the surviving key ordinals newest-first in storage order and the current marker (pairs: also the public parts), for cached v1 handles plus decoded cache entries, clean flag and surviving ordinals offered so far; states are identified with their shortest history, successors are computed by replaying that history on a fresh real key store and applying one more operation of the alphabet; de-duplication on the canonical string per configuration; distinct_nontrivial counts distinct (configuration, canonical state) pairs plus distinct (format, outcome class) pairs")
+	r.Rule("storage capabilities (v1): every configuration listed under bounds.single_kind_link_refusing_storage_and_umask is explored like a standard configuration (same alphabet, same BFS with de-duplication, same oracle, every kind) to the depth given there; a link-refusing storage is the configuration's own storage (kslab.MemFS or the real filesystem.FileStorage in a real directory) whose Link fails on every call with *os.LinkError EPERM / EOPNOTSUPP / EXDEV or an error without errno, so every rotated key is put into its history file by Storage.Copy; configurations named -umaskNNN run with that process umask; the cache-less link-refusing configurations (memory and real directory) also take part in the differential pass")
 	r.Assume("Themis is replaced by the pure-Go stand-in /verif/shim/gothemis",
 		"v1 in-memory Storage kslab.MemFS conforms to filesystem.FileStorage (differential self-test: bin/check C06 -selftest; every single-kind history is also run on a real directory)",
 		"the rotated-key listing enumerates keys oldest first in both formats (creation times shown are checked to be non-decreasing); row i denotes the (i-1)-th oldest rotated survivor",
-		"key store handles are driven sequentially (concurrency is C17), storage calls do not fail (C08)",
+		"key store handles are driven sequentially (concurrency is C17), storage calls do not fail (C08) - except Link on the link-refusing storages, which fails always (a storage capability, not a fault)",
+		"the process umask is "+defaultUmask+" (set by the check, not inherited) except in the configurations named -umaskNNN; file modes are not observed, only what the key store offers and what is stored",
+		"Acra's Redis storage (the shipped storage that refuses Link) is not run: no Redis server in the sandbox; it is represented by the in-memory storage with Link refused by an error without errno",
 		"directory-backed variants run on tmpfs (/dev/shm) when VERIF_SCRATCH is not set")
 	stopProfile()
 	r.Finish()
